@@ -25,9 +25,17 @@
      - a mutant the specification types and Rust accepts:  SKIP mutant-well-typed
      - on accept: every annotation is present and the checked definitions erase to the parsed ones
        up to the order of clauses, else  VIOL class=annotation …
-   Every VIOL line carries corr=ok|diff (whether model and implementation agreed on that case). *)
+   Every VIOL line carries corr=ok|diff (whether model and implementation agreed on that case).
+   Domain of the theorems about programs with type parameters (Props/C15.v, round 2): every compared
+   input must have identifier-like type / constructor / destructor names (Sem.FunNames.prog_names_ok),
+   else  BAD names-not-identifier-like;  the OK line says dt-wf / dt-ill (Sem.FunNames.decl_types_wf:
+   the guard of the soundness theorem, the complement of the known finding).
+   Instance table (Sem.FunClosed): on accept the REAL output must satisfy defs_closed (every producer's type is
+   declared under its printed name), else  VIOL class=output-not-closed;  the OK line says closed-full /
+   closed-part (whether also fields, clause binders and passed-down annotations are declared: fcprog_closed). *)
 From Coq Require Import List ZArith NArith String Bool.
 From SCC Require Import Base.Sexp Lang.SynUtil Lang.FunSyn Model.RunBase Model.Check Sem.FunTyping Sem.FunErase.
+From SCC Require Import Sem.FunNames Sem.FunClosed.
 Import ListNotations.
 Open Scope string_scope.
 
@@ -69,6 +77,7 @@ Definition check_case (i r : sexp) : verdict :=
       match g_fprog ps with
       | None => VBad ("input unreadable " ++ show_bad (first_bad readable_fun ps))
       | Some p =>
+          if negb (prog_names_ok p) then VBad "names-not-identifier-like (outside the domain of the C15 theorems)" else
           let rr := match r with
                     | L [A "ok"; q] => match g_fcprog q with Some q => Some (RAcc q) | None => None end
                     | L [A "err"; A v] => Some (RRej v)
@@ -90,6 +99,7 @@ Definition check_case (i r : sexp) : verdict :=
                     if negb spec then Some (VViol ("class=accepts-ill-typed:" ++ tag ++ " spec=" ++ ill_reason p ++ " " ++ corr_tag))
                     else if negb (annotated_fcprog q) then Some (VViol ("class=annotation missing " ++ corr_tag))
                     else if negb (defs_erase_to (fcpdefs q) (fdefs (fpdecls p))) then Some (VViol ("class=annotation erasure " ++ corr_tag))
+                    else if negb (defs_closed q) then Some (VViol ("class=output-not-closed (a producer's type has no declaration) " ++ corr_tag))
                     else if is_wt then None else Some (VSkip "mutant-well-typed")
                 | RRej v =>
                     if spec then Some (VViol ("class=rejects-well-typed err=" ++ v ++ " tag=" ++ tag ++ " " ++ corr_tag))
@@ -102,7 +112,10 @@ Definition check_case (i r : sexp) : verdict :=
               | Some (VBad w), _ => VBad w
               | _, inr (a, b) => VDiff a b
               | Some v, inl _ => v
-              | None, inl t => VOk ("nt " ++ tag ++ " " ++ t ++ (if spec then " spec-wt" else " spec-ill") ++ prog_tags p)
+              | None, inl t => VOk ("nt " ++ tag ++ " " ++ t ++ (if spec then " spec-wt" else " spec-ill")
+                                     ++ (if decl_types_wf (tdecls (fpdecls p)) then " dt-wf" else " dt-ill")
+                                     ++ (match rr with RAcc q => if fcprog_closed q then " closed-full" else " closed-part" | _ => "" end)
+                                     ++ prog_tags p)
               end
           end
       end
